@@ -359,6 +359,20 @@ func newCenvWith(h map[string]string, mgr *circuit.Manager) *cenv {
 		e.sib = circuit.NewCircuitFromConfig("sib", sibCfg)
 	}
 	e.base = e.c.Config() // merged with the library defaults (factories, time keeper)
+	if mgr == nil && h["direct"] == "1" {
+		// (the config the harness re-applies later keeps its own copies of the collector lists …)
+		e.base.Metrics.Run = append([]circuit.RunMetrics(nil), e.base.Metrics.Run...)
+		e.base.Metrics.Fallback = append([]circuit.FallbackMetrics(nil), e.base.Metrics.Fallback...)
+		e.base.Metrics.Circuit = append([]circuit.Metrics(nil), e.base.Metrics.Circuit...)
+		// … because the caller goes on using ITS OWN slices: it truncates them and appends something else.  The circuits
+		// must have taken copies of what they deliver to: if a circuit's collector list aliases the caller's backing
+		// array, its second collector is replaced by a stranger and the fan-out check (every recorder is told the same)
+		// fails from now on
+		junk := &recorder{}
+		_ = append(cfg.Metrics.Run[:1], circuit.RunMetrics(runRec{junk}))
+		_ = append(cfg.Metrics.Fallback[:1], circuit.FallbackMetrics(fbRec{junk}))
+		_ = append(cfg.Metrics.Circuit[:1], circuit.Metrics(runRec{junk}))
+	}
 	if mgr != nil {
 		applyCfg(&e.base, map[string]string{"fo": "0", "fc": "0", "dis": "0", "to": "0", "mc": "10", "ii": "0", "fbd": "0", "fbmc": "10"})
 		applyCfg(&e.base, h)
